@@ -189,3 +189,14 @@ prop("C06", "exploration",
      "before and after compute(). Non-trivial = the observed run restarted at least once and the pre-history was not empty; distinct by (solver, n, nev, ncv, pre-history word, maxit, operation count)",
      [dict(name="c06_g%d" % g, sources=["c06_history.cpp"], flavour="asan", flags=["-DZOO_GROUP=%d" % g], deps=ZOO_DEPS) for g in (0, 1, 2)],
      assumptions=TRUST + ["bitwise comparison is sound because all compared runs execute in one process on identically aligned Eigen buffers (no run-time dispatch in Eigen)"])
+
+
+# ------------------------------------------------------------------------------------------ C05
+prop("C05", "exploration",
+     "for each of 17 solver configurations and a generated problem (65% clean / 35% hostile domain): a random interleaving (length 2..5, 7 thorough) of init(), init(v), compute(selection, maxit, tol, sorting) "
+     "with maxit from {0,0,1,1,2,3,5,10,300} and accessor reads; before any compute(): info()==NotComputed and empty accessors; after every compute(): return value == eigenvalues().size() == "
+     "eigenvectors().cols() <= nev, info() Successful iff that number is nev, eigenvectors(m) for every m in 0..nev+2, order in the sorting key, value i fits column i (no other returned value fits "
+     "it ten times better), num_operations() == applications seen by the counting wrapper since init() (applications at a foreign shift excluded), restarts (compress hook events) <= maxit. "
+     "Non-trivial = some compute() restarted at least once and returned a pair; distinct by (solver, n, nev, ncv, history word, scale, total applications)",
+     [dict(name="c05_g%d" % g, sources=["c05_api.cpp"], flavour="asan", flags=["-DZOO_GROUP=%d" % g], deps=ZOO_DEPS + ["common/fachook.hpp"]) for g in (0, 1, 2)],
+     assumptions=TRUST + ["the number of restarts is observed as the number of compress_V hook events, the number of operator applications by a wrapper around the user's operator"])
